@@ -1,6 +1,8 @@
 package main
 
 import (
+	"bytes"
+	"context"
 	"crypto/cipher"
 	"crypto/des"
 	"crypto/md5"
@@ -9,6 +11,8 @@ import (
 	"os/exec"
 	"path/filepath"
 	"strings"
+	"syscall"
+	"time"
 )
 
 func init() { gens["C09"] = genC09 }
@@ -162,5 +166,112 @@ func genC09(c *Ctx) {
 		o, _ := inspectObs(it.path)
 		c.Emit("after:"+it.tag, SL{SL{S(it.tag), c09_rawSx(it.fresh)}}, SL{o})
 	}
+	// the second sentence of the property, through the real command-line tool: one process scanning
+	// the whole pool (-r), with entries that cannot be inspected in between, prints for each regular
+	// file exactly what a separate run on that file alone prints
+	c09Scan(c, dir, pool[0].path, func(i int) (string, string, bool) {
+		if i >= len(pool) {
+			return "", "", false
+		}
+		return pool[i].tag, pool[i].path, true
+	})
 	os.RemoveAll(dir)
+}
+
+func c09RunCLI(c *Ctx, cwd string, args ...string) ([]byte, int) {
+	ctx, cancel := context.WithTimeout(context.Background(), 120*time.Second)
+	defer cancel()
+	cmd := exec.CommandContext(ctx, c.Bin, args...)
+	cmd.Dir = cwd
+	var so bytes.Buffer
+	cmd.Stdout = &so
+	cmd.WaitDelay = time.Second
+	err := cmd.Run()
+	code := 0
+	if err != nil {
+		code = -1
+		if ee, ok := err.(*exec.ExitError); ok {
+			code = ee.ExitCode()
+		}
+	}
+	return so.Bytes(), code
+}
+
+func c09Scan(c *Ctx, dir, _ string, item func(int) (string, string, bool)) {
+	root := filepath.Join(dir, "scan")
+	sub := filepath.Join(root, "m-sub", "deeper")
+	os.MkdirAll(sub, 0o755)
+	type ent struct{ tag, rel string }
+	var ents []ent
+	for i := 0; ; i++ {
+		tag, src, ok := item(i)
+		if !ok {
+			break
+		}
+		d, err := os.ReadFile(src)
+		if err != nil {
+			continue
+		}
+		rel := filepath.Base(src)
+		switch i % 7 {
+		case 3:
+			rel = filepath.Join("m-sub", rel)
+		case 5:
+			rel = filepath.Join("m-sub", "deeper", rel)
+		}
+		os.WriteFile(filepath.Join(root, rel), d, 0o644)
+		ents = append(ents, ent{tag, rel})
+	}
+	// entries that cannot be inspected, sorting before, between and after the files
+	os.Symlink("nowhere", filepath.Join(root, "000-dangling"))
+	os.Symlink("nowhere", filepath.Join(root, "020-dangling"))
+	os.Symlink("self-loop", filepath.Join(root, "m-sub", "self-loop"))
+	os.Symlink("nowhere", filepath.Join(root, "m-sub", "deeper", "000-dangling"))
+	syscall.Mkfifo(filepath.Join(root, "010-fifo"), 0o644)
+	os.Mkdir(filepath.Join(root, "015-empty-dir"), 0o755)
+	os.Mkdir(filepath.Join(root, "m-sub", "unreadable"), 0o000)
+	os.Symlink("nowhere", filepath.Join(root, "zzz-dangling"))
+	// the order of the scan: depth first, entries sorted by name (byte-wise)
+	var order []ent
+	var walk func(rel string)
+	walk = func(rel string) {
+		es, _ := os.ReadDir(filepath.Join(root, rel))
+		for _, e := range es {
+			r := filepath.Join(rel, e.Name())
+			if e.IsDir() {
+				walk(r)
+				continue
+			}
+			for _, x := range ents {
+				if x.rel == r {
+					order = append(order, x)
+				}
+			}
+		}
+	}
+	walk("")
+	input := SL{}
+	var want [][]byte
+	for _, x := range order {
+		o, code := c09RunCLI(c, dir, filepath.Join("scan", x.rel))
+		if code != 0 {
+			o = append(o, []byte(fmt.Sprintf("<exit %d>", code))...)
+		}
+		want = append(want, o)
+		input = append(input, SL{S(x.tag), SL{SB(o)}})
+	}
+	input = append(input, SL{S("exit-status"), SL{I(0)}})
+	got, code := c09RunCLI(c, dir, "-r", "scan")
+	obs := SL{}
+	for i, w := range want {
+		n := len(w)
+		if n > len(got) || i == len(want)-1 {
+			n = len(got)
+		}
+		obs = append(obs, SL{SB(got[:n])})
+		got = got[n:]
+	}
+	obs = append(obs, SL{I(code)})
+	c.Emit("scan", input, obs)
+	os.Chmod(filepath.Join(root, "m-sub", "unreadable"), 0o755)
 }
